@@ -213,7 +213,10 @@ func appendInt(p *thrift.BinaryProtocol, typ thrift.Type, out *[]byte) error {
 		if err != nil {
 			return err
 		}
-		*out = append(*out, s...)
+		// the value is an arbitrary string: quotes, backslashes and control characters must be escaped
+		if len(s) > 0 {
+			json.NoQuote(out, s)
+		}
 	default:
 		return meta.NewError(meta.ErrUnsupportedType, fmt.Sprintf("unsupported type: %v", typ), nil)
 	}
